@@ -126,6 +126,31 @@ Fixpoint numbered (lo next : nat) (t : trace) : option nat :=
   | (g, _) :: rest => if Nat.leb lo g && Nat.ltb g next then numbered lo next rest else None
   end.
 
+(* WHICH generator makes which draw inside the population initializer (generator numbers, not only their order):
+   the population generator pg draws one seed per individual, each at once followed by the construction of that
+   individual's generator ig; ig draws one seed per layer, each at once followed by the construction of the layer's
+   generator lg; choice / sample come from the CURRENT layer generator, random() (the parameter values, after the
+   layers) from the current individual's generator; nothing else occurs. *)
+Fixpoint attributed (pg : nat) (ig lg : option nat) (next : nat) (t : trace) : bool :=
+  match t with
+  | [] => true
+  | (g, DRandint _ _ _) :: (g', DSeed _) :: rest =>
+      Nat.eqb g' next &&
+      (if Nat.eqb g pg then attributed pg (Some next) None (S next) rest
+       else if option_eqb Nat.eqb (Some g) ig then attributed pg ig (Some next) (S next) rest
+       else false)
+  | (g, DChoice _ _) :: rest => option_eqb Nat.eqb (Some g) lg && attributed pg ig lg next rest
+  | (g, DSample _ _ _) :: rest => option_eqb Nat.eqb (Some g) lg && attributed pg ig lg next rest
+  | (g, DRandom _) :: rest => option_eqb Nat.eqb (Some g) ig && attributed pg ig None next rest
+  | _ => false
+  end.
+
+Definition init_attributed (part : trace) : bool :=
+  match part with
+  | (g, DSeed _) :: body => Nat.eqb g G_POP && attributed G_POP None None (S G_POP) body
+  | _ => false
+  end.
+
 (* the population initializer, called once inside solve: the population seed is drawn from the master NOW;
    EVQEPopulation.random_population is the model of Evqe/RandLayer.v run on the decisions of the part *)
 Definition evqe_initial_population (cfg : run_cfg) (t : trace)
@@ -136,7 +161,9 @@ Definition evqe_initial_population (cfg : run_cfg) (t : trace)
             (Some (fst a)) s (S (length s));
   let used := (length s - length (snd p))%nat in
   match numbered G_POP G_POP (firstn used (snd a)) with
-  | Some next => Ok (fst a, fst p, next, skipn used (snd a))
+  | Some next =>
+      if init_attributed (firstn used (snd a)) then Ok (fst a, fst p, next, skipn used (snd a))
+      else Err StreamMismatch             (* a draw was made by another generator than the one the code uses *)
   | None => Err StreamMismatch
   end.
 
